@@ -121,7 +121,8 @@ type Engine struct {
 	Returns    []ReturnRec
 	Problems   []Problem
 	volatile   map[*ssa.Alloc]bool
-	sentinel   map[string]bool // package-level error variables with a fixed non-nil value
+	sentinel   map[string]bool   // package-level error variables with a fixed non-nil value
+	unwrapIdx  map[string][3]int // type key -> {field index, by pointer, found} of an Unwrap() error method
 	allocOf    map[string]*ssa.Alloc
 	siteType   map[string]types.Type
 	Inlined    map[*ssa.Function]bool
@@ -1161,4 +1162,64 @@ func (e *Engine) SortedProblems() []Problem {
 		return ps[i].Msg < ps[j].Msg
 	})
 	return ps
+}
+
+// unwrapField reports, for an in-package type whose method set has `Unwrap() error`
+// implemented as "return <receiver>.<field>", the index of that field and whether the
+// receiver is a pointer.
+func (e *Engine) unwrapField(t types.Type) (idx int, byPtr bool, ok bool) {
+	if e.unwrapIdx == nil {
+		e.unwrapIdx = map[string][3]int{}
+	}
+	key := typeKey(t)
+	if c, hit := e.unwrapIdx[key]; hit {
+		return c[0], c[1] == 1, c[2] == 1
+	}
+	res := [3]int{}
+	defer func() { e.unwrapIdx[key] = res }()
+	sel := e.Cfg.Prog.MethodSets.MethodSet(t).Lookup(e.Cfg.Pkg.Pkg, "Unwrap")
+	if sel == nil {
+		// exported Unwrap is looked up without a package
+		sel = e.Cfg.Prog.MethodSets.MethodSet(t).Lookup(nil, "Unwrap")
+	}
+	if sel == nil {
+		return 0, false, false
+	}
+	fn := e.Cfg.Prog.MethodValue(sel)
+	if fn == nil || fn.Pkg != e.Cfg.Pkg || len(fn.Blocks) != 1 || len(fn.Params) != 1 || fn.Signature.Results().Len() != 1 || fn.Signature.Results().At(0).Type().String() != "error" {
+		return 0, false, false
+	}
+	ret, isRet := fn.Blocks[0].Instrs[len(fn.Blocks[0].Instrs)-1].(*ssa.Return)
+	if !isRet || len(ret.Results) != 1 {
+		return 0, false, false
+	}
+	recv := fn.Params[0]
+	_, ptr := recv.Type().Underlying().(*types.Pointer)
+	switch v := ret.Results[0].(type) {
+	case *ssa.UnOp: // *(&recv.field)
+		if fa, isFA := v.X.(*ssa.FieldAddr); isFA && v.Op == token.MUL && fa.X == recv {
+			res = [3]int{fa.Field, 1, 1}
+		}
+	case *ssa.Field:
+		if v.X == recv {
+			res = [3]int{v.Field, 0, 1}
+		} else if ld, isLd := v.X.(*ssa.UnOp); isLd && ld.Op == token.MUL && ld.X == recv {
+			res = [3]int{v.Field, 1, 1}
+		}
+	}
+	_ = ptr
+	// the dynamic type boxed must be the receiver type of the found method
+	if res[2] == 1 {
+		_, boxedPtr := t.Underlying().(*types.Pointer)
+		if (res[1] == 1) != boxedPtr {
+			// a value boxed while the method has a pointer receiver (or the reverse through the
+			// method set of *T): only the plain cases are modelled
+			if !(res[1] == 0 && boxedPtr) {
+				res = [3]int{}
+			} else {
+				res = [3]int{res[0], 1, 1} // value-receiver method reached through a pointer: read the field through it
+			}
+		}
+	}
+	return res[0], res[1] == 1, res[2] == 1
 }
